@@ -584,11 +584,13 @@ class ReparameterizedTimeTreeModel(TimeTreeModel, CallableModel):
 
     def cuda(self, device: Optional[Union[int, torch.device]] = None) -> None:
         super().cuda(device)
-        self.transform = GeneralNodeHeightTransform(self)
+        if isinstance(self.transform, GeneralNodeHeightTransform):
+            self.transform = GeneralNodeHeightTransform(self)
 
     def cpu(self) -> None:
         super().cpu()
-        self.transform = GeneralNodeHeightTransform(self)
+        if isinstance(self.transform, GeneralNodeHeightTransform):
+            self.transform = GeneralNodeHeightTransform(self)
 
     @staticmethod
     def json_factory(
